@@ -497,6 +497,11 @@ func runC07(c *Ctx) {
 		maxOps = 24
 	}
 	nOps := 2 + g.Draw(maxOps)
+	deep := g.Chance(10)
+	if deep {
+		nOps = 30 + g.Draw(24) // now and then many and deep derivations
+		c.R.Probe("derivation program of 30-53 operations")
+	}
 	nShared := 0
 	if nTasks > 1 {
 		nShared = 1 + g.Draw(4)
@@ -508,6 +513,10 @@ func runC07(c *Ctx) {
 		nameLen int // length of the dot-joined name of the node's path
 	}
 	gn := []gnode{{owner: -1}}
+	maxNodes := 10
+	if deep {
+		maxNodes = 28
+	}
 	logN := 0
 	for i := 0; i < nOps; i++ {
 		op := &c7op{}
@@ -530,7 +539,7 @@ func runC07(c *Ctx) {
 		if mutation {
 			kindW[2] = 2
 		}
-		if len(gn) >= 10 {
+		if len(gn) >= maxNodes {
 			kindW[0] = 0
 			if shared {
 				kindW[1] = 1
